@@ -2545,7 +2545,9 @@ class x86_mn(x86_mn_base):
                         elif self.opmode == mm:  reg_cat = x86_afs.reg_mm_base
                         elif self.opmode == u32: reg_cat = 0
                         else:
-                            NEVER
+                            # not an instruction (e.g. 0x66 on a
+                            # prefix-less form under 16-bit operand size)
+                            return None
                     c = ord(bin.readbs())
                     re, modr = x86mndb.get_afs(bin, c, self.admode)
                     mafs = dict(x86mndb.get_afs_re(re+reg_cat))
@@ -2572,7 +2574,7 @@ class x86_mn(x86_mn_base):
                             if   sse_prefix == [0x66]:
                                 modr[x86_afs.size] = x86_afs.f32
                             elif sse_prefix == [0xF2]:
-                                NEVER
+                                return None # F2 0F 6E / 7E: no instruction
                             elif sse_prefix == [0xF3]:
                                 modr[x86_afs.size] = x86_afs.f64
                         elif '#ps#' in m.name or m.name == 'mov#ups#':
@@ -2586,7 +2588,7 @@ class x86_mn(x86_mn_base):
                             elif sse_prefix == [0x66]:
                                 modr[x86_afs.size] = x86_afs.f64
                             elif sse_prefix == [0xF2] or sse_prefix == [0xF3]:
-                                NEVER
+                                return None # F2/F3 0F 2E / 2F: no instruction
                         elif '#ps2pi' in m.name or '#ps2pd' in m.name:
                             if sse_prefix == [] or sse_prefix == [0xF2]:
                                 modr[x86_afs.size] = x86_afs.f64
@@ -2970,7 +2972,7 @@ class x86_mn(x86_mn_base):
                 name = 'movq'
                 prefix.append(0x66)
             else:
-                NEVER
+                raise ValueError('movq needs an mm or xmm operand')
         elif name == 'cmpsd' and len(args_eval) == 0:
             pass
         elif name == 'pmovmskb':
